@@ -53,17 +53,13 @@ Qed.
 Lemma add_error_cannot_continue m w o w' b :
   add_error_msg m false w = (o, w') -> m_can_continue w' = (OOk b, w') -> o = OOk tt -> b = false.
 Proof.
-  unfold add_error_msg, mod_state, modify, m_state_res, mbind, get_state, gets, lift. cbn.
-  match goal with |- context [force_end ?s] => destruct (force_end s) as [s2| |] eqn:F end;
-    intros H; inversion H; subst; clear H; try discriminate.
-  intros Hc _. unfold m_can_continue, m_read, mbind, get_state, gets, lift in Hc. cbn in Hc.
+  intros Ha Hc Ho. subst o.
+  destruct (add_error_keeps_events m w _ _ Ha) as [_ He]. specialize (He eq_refl).
+  unfold m_can_continue, m_read, mbind, get_state, gets, lift in Hc.
   unfold ss_can_continue in Hc.
-  destruct (ss_cur_pointer s2) as [ptr| |]; cbn in Hc; try discriminate.
-  inversion Hc; subst.
-  assert (He : ss_has_error s2 = true).
-  { unfold ss_has_error. rewrite (force_end_errors _ _ F). cbn. unfold set; cbn.
-    destruct (ss_errors (w_state w)); reflexivity. }
-  rewrite He. now rewrite Bool.andb_false_r.
+  destruct (ss_cur_pointer (w_state w')) as [ptr| |]; cbn in Hc; try discriminate.
+  inversion Hc as [Hb]. unfold ss_has_error.
+  destruct (ss_errors (w_state w')); [congruence|]. cbn. now rewrite Bool.andb_false_r.
 Qed.
 
 (* one iteration of the loop, spelled out *)
